@@ -1230,6 +1230,64 @@ RULE_PG1 = ('PG1: gate parameters are never reduced modulo 2 pi in the simulator
             'which is a relative phase as soon as the gate is controlled.')
 
 
+NR1_EXTRA = ('numqi.dicke.partial_trace_ABk_to_AB', 'numqi.utils.partial_trace')
+
+
+def nr1_extra(proj, rep, quals=NR1_EXTRA):
+    """NR1 for the reduction maps: a partial trace is linear in its argument"""
+    rep.rule('NR1', RULE_NR1)
+    n = 0
+    for q in quals:
+        fi = proj.func(q)
+        m = fi.module
+        rep.touch(m)
+        n += 1
+        bad = None
+        for b in ast.walk(fi.node):
+            if isinstance(b, (ast.BinOp, ast.AugAssign)) and isinstance(b.op, ast.Div):
+                den = b.right if isinstance(b, ast.BinOp) else b.value
+                if any(isinstance(c, ast.Call) and ast.unparse(c.func).split('.')[-1] in ('trace', 'norm', 'vdot') for c in ast.walk(den)):
+                    bad = b
+        if bad is not None:
+            rep.violation('NR1', q, f'`{ast.unparse(bad)[:70]}` re-normalises the reduced operator by a data-dependent trace / norm: the map is no longer the (linear) '
+                          f'partial trace - for a vector of norm c the result is off by the factor c^2', m, bad)
+        else:
+            rep.ok('NR1', q, 'reduction not re-normalised', m, fi.node, text=f'{q} linearity')
+    return n
+
+
+RULE_MR2 = ('MR2: an integer key `t @ (R ** arange(L))` for tuples t of length L uses a radix R larger than every entry: level strings (length num_qudit, entries < dim) '
+            'take R = dim; occupation tuples (length dim, entries <= num_qudit) need R >= num_qudit + 1. With R = dim two occupation tuples collide as soon as an '
+            'occupation reaches dim (e.g. (0,4,0) and (1,0,3) for dim = 3).')
+
+
+def mr2(proj, rep, modules=('numqi.dicke',)):
+    rep.rule('MR2', RULE_MR2)
+    n = 0
+    for fi in proj.iter_functions():
+        m = fi.module
+        if not _in_scope(m, list(modules)):
+            continue
+        for b in ast.walk(fi.node):
+            if not (isinstance(b, ast.BinOp) and isinstance(b.op, ast.Pow)):
+                continue
+            ar = [c for c in ast.walk(b.right) if isinstance(c, ast.Call) and ast.unparse(c.func).endswith('arange') and c.args]
+            if not ar:
+                continue
+            R, L = ast.unparse(b.left).replace(' ', ''), ast.unparse(ar[0].args[0]).replace(' ', '')
+            if R not in ('dim', 'num_qudit', 'num_qudit+1', '(num_qudit+1)') or L not in ('dim', 'num_qudit'):
+                continue
+            n += 1
+            rep.touch(m)
+            if L == 'dim' and R == 'dim':
+                rep.violation('MR2', fi.qual, f'`{ast.unparse(b)[:50]}`: keys for length-dim tuples (occupation numbers, up to num_qudit) are built with radix dim: tuples collide as soon '
+                              f'as an occupation number reaches dim', m, b)
+            elif L == 'num_qudit' and R.startswith('num_qudit') or L == 'num_qudit' and R == 'dim' or L == 'dim':
+                rep.ok('MR2', fi.qual, f'`{ast.unparse(b)[:50]}` radix bounds the entries', m, b)
+    rep.count('MR2.radix_keys', n)
+    return n
+
+
 def sim_sweeps(proj, rep, modules=('numqi.sim', 'numqi.gate')):
     for k, v in (('D6', RULE_D6), ('NR1', RULE_NR1), ('PG1', RULE_PG1)):
         rep.rule(k, v)
@@ -1803,4 +1861,565 @@ def i2(proj, rep):
     if n == 0:
         rep.undecided('I2', fi.qual, 'assignment of alpha not found', m, fi.node, text='alpha')
     rep.count('I2.alpha_assignments', n)
+    return n
+
+
+# ------------------------------------------------------------------------------------------------ AL4 / AG6
+RULE_AL4 = ('AL4: two outputs of one function are two objects: a chained assignment `a = b = <computed array>` followed by `return a, .., b` hands the caller ONE array '
+            'under two names, so an in-place update of one output (`gamma += 2*pi*k`) silently changes the other. (Chained assignment of a fresh constant '
+            'buffer that is only read is not reported.)')
+RULE_AG6 = ('AG6: in the Euler-angle extraction the gimbal tolerance `zero_eps` is an ANGLE: outside assertions it is compared with `beta` (or pi - beta) only. Compared '
+            'with a matrix entry / cosine (|cos beta| - 1 < zero_eps) the window is sqrt(2*zero_eps) = 4.5e-4 rad wide and every slightly tilted rotation is snapped '
+            'to exact gimbal lock.')
+
+
+def al4(proj, rep, modules=None):
+    rep.rule('AL4', RULE_AL4)
+    n = 0
+    for fi in proj.iter_functions():
+        m = fi.module
+        if not _in_scope(m, modules):
+            continue
+        params = set(fi.all_params)
+        rets = [r for r in ast.walk(fi.node) if isinstance(r, ast.Return) and isinstance(r.value, ast.Tuple)]
+        if not rets:
+            continue
+        # names derived from parameters (flow-insensitive closure)
+        dep = set(params)
+        changed = True
+        while changed:
+            changed = False
+            for s in ast.walk(fi.node):
+                if isinstance(s, ast.Assign) and any(isinstance(y, ast.Name) and y.id in dep for y in ast.walk(s.value)):
+                    for t in s.targets:
+                        for y in ast.walk(t):
+                            if isinstance(y, ast.Name) and isinstance(y.ctx, ast.Store) and y.id not in dep:
+                                dep.add(y.id)
+                                changed = True
+        for s in ast.walk(fi.node):
+            if not (isinstance(s, ast.Assign) and len(s.targets) >= 2 and all(isinstance(t, ast.Name) for t in s.targets)):
+                continue
+            n += 1
+            names = [t.id for t in s.targets]
+            computed = any(isinstance(y, ast.Name) and y.id in dep for y in ast.walk(s.value)) and not isinstance(s.value, ast.Constant)
+            both = [r for r in rets if sum(1 for e in r.value.elts if isinstance(e, ast.Name) and e.id in names) >= 2]
+            if computed and both:
+                # is one of them re-bound before the return?  (then the alias is broken)
+                rebound = any(isinstance(x, ast.Assign) and len(x.targets) == 1 and isinstance(x.targets[0], ast.Name) and x.targets[0].id in names and x.lineno > s.lineno
+                              and x.lineno < both[0].lineno and any(x is y for b in _ancestors(both[0], fi.node) for y in getattr(b, 'body', [])) for x in ast.walk(fi.node))
+                if not rebound:
+                    rep.touch(m)
+                    rep.violation('AL4', fi.qual, f'`{ast.unparse(s)[:70]}` then `{ast.unparse(both[0])[:40]}`: the outputs {names} are one array object; an in-place update of one '
+                                  f'by the caller changes the other', m, s)
+    rep.count('AL4.chained_assignments', n)
+    return n
+
+
+def ag6(proj, rep):
+    rep.rule('AG6', RULE_AG6)
+    n = 0
+    for q in ('numqi.group._lie._so3_to_angle_hf0', 'numqi.group._lie.so3_to_angle', 'numqi.group._lie.su2_to_angle', 'numqi.group._lie.so3_to_su2'):
+        fi = proj.func(q)
+        m = fi.module
+        rep.touch(m)
+        for c in ast.walk(fi.node):
+            if not isinstance(c, ast.Compare) or isinstance(_stmt(c), ast.Assert):
+                continue
+            sides = [c.left] + list(c.comparators)
+            if not any(isinstance(y, ast.Name) and y.id == 'zero_eps' for s in sides for y in ast.walk(s)):
+                continue
+            n += 1
+            others = [s for s in sides if not any(isinstance(y, ast.Name) and y.id == 'zero_eps' for y in ast.walk(s))]
+            if all(any(isinstance(y, ast.Name) and y.id == 'beta' for y in ast.walk(s)) for s in others):
+                rep.ok('AG6', q, f'`{ast.unparse(c)[:50]}` compares the angle beta with the angle tolerance', m, c)
+            else:
+                rep.violation('AG6', q, f'`{ast.unparse(c)[:70]}` compares a matrix entry / cosine with the ANGLE tolerance zero_eps: the gimbal window becomes '
+                              f'sqrt(2*zero_eps) wide in beta', m, c)
+    rep.count('AG6.tolerance_comparisons', n)
+    return n
+
+
+# ------------------------------------------------------------------------------------------------ TR1 / D7
+RULE_TR1 = ('TR1: a parameter that may be a bare integer (the function converts an int to a one-element collection: hf_tuple_of_int(p), int(p), isinstance(p, int / '
+            'Iterable), hasattr(p, "__len__"), or its annotation is a union with int) is never tested by truthiness (`if not p:`): the integer 0 - qubit 0, '
+            'subsystem 0 - is falsy and would be treated as "not given".')
+RULE_D7 = ('D7: in the sweep of Circuit.apply_state every arm of the kind dispatch applies its gate unconditionally (the state update `q0 = ...(q0 ...)` is a direct '
+           'statement of the arm, not nested under a further condition), and the measurement record (`.bitstr`, `.probability`) is written only by '
+           'MeasureGate itself: a skipped measurement would record the distribution of an earlier point of the circuit.')
+_FLAG_PREFIX = ('tag_', 'use_', 'is_', 'return_', 'with_', 'ignore_', 'not_', 'has_', 'diag_')
+
+
+def tr1(proj, rep, modules=None):
+    rep.rule('TR1', RULE_TR1)
+    n = 0
+    for fi in proj.iter_functions():
+        m = fi.module
+        if not _in_scope(m, modules):
+            continue
+        params = [p for p in fi.all_params if not p.startswith(_FLAG_PREFIX)]
+        if not params:
+            continue
+        ann = {a.arg: (ast.unparse(a.annotation) if a.annotation is not None else '') for a in fi.node.args.posonlyargs + fi.node.args.args + fi.node.args.kwonlyargs}
+        src = ast.unparse(fi.node).replace(' ', '')
+
+        def int_capable(p):
+            a = [x.strip() for x in re.sub(r'\[[^\]]*\]', '', ann.get(p, '')).split('|')]
+            if 'int' in a and len(a) >= 2:
+                return True
+            return any(k in src for k in (f'hf_tuple_of_int({p})', f'int({p})', f'isinstance({p},int)', f'isinstance({p},collections.abc.Iterable)', f"hasattr({p},'__len__')",
+                                          f'isinstance({p},(int', f'isinstance({p},numbers.Integral)'))
+        cap = [p for p in params if int_capable(p)]
+        if not cap:
+            continue
+        n += 1
+        bad = None
+        for node in ast.walk(fi.node):
+            tests = []
+            if isinstance(node, (ast.If, ast.IfExp, ast.While)):
+                tests.append(node.test)
+            elif isinstance(node, ast.BoolOp):
+                tests.extend(node.values)
+            elif isinstance(node, ast.UnaryOp) and isinstance(node.op, ast.Not):
+                tests.append(node.operand)
+            for t in tests:
+                if isinstance(t, ast.UnaryOp) and isinstance(t.op, ast.Not):
+                    t = t.operand
+                if isinstance(t, ast.Name) and t.id in cap:
+                    bad = (node, t.id)
+        rep.touch(m)
+        if bad:
+            rep.violation('TR1', fi.qual, f'`{ast.unparse(bad[0])[:60]}` tests `{bad[1]}` by truthiness, but `{bad[1]}` may be the bare integer 0 (the function itself converts an int): '
+                          f'index 0 is treated as "not given"', m, bad[0])
+        else:
+            rep.ok('TR1', fi.qual, f'int-capable parameter(s) {cap} only tested with `is None` / isinstance', m, fi.node, text=f'{fi.qual} int-capable tests')
+    rep.count('TR1.functions_with_int_capable_parameters', n)
+    return n
+
+
+def d7(proj, rep):
+    rep.rule('D7', RULE_D7)
+    fi = proj.func('numqi.sim.circuit.Circuit.apply_state')
+    m = fi.module
+    rep.touch(m)
+    n = 0
+    loop = next((lp for lp in ast.walk(fi.node) if isinstance(lp, ast.For) and 'gate_index_list' in ast.unparse(lp.iter)), None)
+    if loop is None:
+        rep.undecided('D7', fi.qual, 'sweep over gate_index_list not found', m, fi.node, text='sweep')
+        return 0
+    chain = next((s for s in loop.body if isinstance(s, ast.If) and 'kind' in ast.unparse(s.test)), None)
+    arms = []
+    cur = chain
+    while cur is not None:
+        arms.append(cur)
+        cur = cur.orelse[0] if len(cur.orelse) == 1 and isinstance(cur.orelse[0], ast.If) else None
+    for a in arms:
+        n += 1
+        direct = [s for s in a.body if isinstance(s, ast.Assign) and isinstance(s.targets[0], ast.Name) and s.targets[0].id == 'q0' and isinstance(s.value, ast.Call)
+                  and any(isinstance(y, ast.Name) and y.id == 'q0' for y in ast.walk(s.value))]
+        nested = [s for b in a.body for s in ast.walk(b) if isinstance(s, ast.Assign) and isinstance(s.targets[0], ast.Name) and s.targets[0].id == 'q0']
+        if direct:
+            rep.ok('D7', f'{fi.qual}[{ast.unparse(a.test)[:30]}]', 'arm applies its gate unconditionally', m, a)
+        elif nested:
+            rep.violation('D7', f'{fi.qual}[{ast.unparse(a.test)[:30]}]', f'the state update `{ast.unparse(nested[0])[:40]}` of this arm is conditional: on the other branch the gate is '
+                          f'not applied (and its record is not taken at this point of the circuit)', m, a)
+        else:
+            n -= 1
+            rep.undecided('D7', f'{fi.qual}[{ast.unparse(a.test)[:30]}]', 'no state update found in the arm', m, a)
+    # who may write the measurement record
+    for cq, ci in sorted(proj.classes.items()):
+        if not cq.startswith('numqi.sim.'):
+            continue
+        for name, f2 in ci.methods.items():
+            for s in ast.walk(f2.node):
+                if isinstance(s, ast.Assign):
+                    tg = s.targets[0]
+                    for t in (tg.elts if isinstance(tg, ast.Tuple) else [tg]):
+                        if isinstance(t, ast.Attribute) and t.attr in ('bitstr', 'probability') and not (isinstance(t.value, ast.Name) and t.value.id == 'self'):
+                            n += 1
+                            rep.violation('D7', f'{cq}.{name}', f'`{ast.unparse(s)[:60]}` writes the measurement record of a gate from outside MeasureGate: the record no longer comes from a '
+                                          f'measurement of the state at that point', f2.module, s)
+    rep.count('D7.dispatch_arms', n)
+    return n
+
+
+# ------------------------------------------------------------------------------------------------ ZS1 / V4 / AX2 / AL5 / NQ1 / CE1 / DT8 / OV1 / FS1 / AR4 / T4
+RULE_ZS1 = ('ZS1: a continuous entanglement measure is not snapped to zero by a tolerance: no `return 0` / `ret = 0` guarded by a comparison with a small literal '
+            '(`ret < 1e-7`) or by a shifted PSD test (`is_positive_semi_definite(.., shift=..)`). Weakly entangled states (0 < C < tol) would be reported as '
+            'unentangled while their partial transpose has a negative eigenvalue: "non-zero exactly when NPT" fails.')
+RULE_V4 = ('V4: the per-term value of a convex-roof model is never a LOWER bound of sqrt(x): a smoothed root `sqrt(x + d) - sqrt(d)` lies below sqrt(x) by up to sqrt(d) '
+           'per term, so the loss can drop below the closed-form value. (A floor `sqrt(max(eps, x))` lies above and is allowed.)')
+RULE_AX2 = ('AX2: an array that the function addresses with an Ellipsis (`x[..., i]`: any number of leading batch axes) is reduced along negative axes; a positive '
+            'axis literal on the same array is the intended axis for one batch rank only.')
+RULE_AL5 = ('AL5: `copy.copy(obj)` shares the containers of `obj`; calling an in-place method (name ending in `_`) on the copy re-writes the original\'s items too. '
+            'Use the object\'s own deep copy / rebuild.')
+RULE_NQ1 = ('NQ1: `Circuit.num_qubit` is the largest used index plus one, a LOWER bound of the register size: it is never required to EQUAL a register size '
+            '(a stabilizer string ending in I gives a narrower circuit that acts correctly on the wider register).')
+RULE_CE1 = ('CE1: the ceiling-division idiom `(a + w - 1) // w` equals ceil(a / w) only for an integer w; with a divisor that may be a float (a weight parameter '
+            'that is only asserted positive) the bound comes out too small.')
+RULE_DT8 = ('DT8: a function that handles complex data (it builds `1j` terms / conjugates) never forces an input-derived array to a real dtype '
+            '(`np.ascontiguousarray(x, dtype=np.float64)`, `np.asarray(x, dtype=float)`): on the recursive / later call with a complex block the imaginary part '
+            'is dropped with a warning only.')
+RULE_OV1 = ('OV1: exact integer combinatorics (math.factorial / math.comb, `//`) never goes through `np.prod` / `np.cumprod`: NumPy integer products wrap '
+            'silently at 2^63 (from N = 21 on for hook products).')
+RULE_FS1 = ('FS1: in the (anti)symmetric projection tables a memo key for an index selection keeps order-free MULTISET information: a sorted tuple. `frozenset(sel)` '
+            'also drops multiplicities, so (a,a,b) and (a,b,b) share one entry.')
+RULE_AR4 = ('AR4: a tensor stored with subsystems in ascending order (A, B, C) is matricised by a plain reshape only along a cut of ADJACENT groups in that order '
+            '(A | BC, AB | C). `reshape(dimB, dimA*dimC)` has the same size but is not the bipartition B | AC: the B axis must be transposed to the front first.')
+RULE_T4 = ('T4: a rank cut keeps the precision class of its quantity: eigenvalues of a Gram matrix `X @ X^dagger` are SQUARED singular values, so one function never cuts '
+           'both singular values (from svd) and Gram eigenvalues at the same tolerance: its two arms would disagree by a square root.')
+
+
+def zs1(proj, rep, modules):
+    rep.rule('ZS1', RULE_ZS1)
+    n = 0
+    for fi in proj.iter_functions():
+        m = fi.module
+        if not _in_scope(m, modules):
+            continue
+        fname = fi.qual.rsplit('.', 1)[1]
+        if not any(k in fname for k in ('concurrence', 'negativity', 'eof', 'gme', 'entropy', 'measure')) or fi.cls is not None:
+            continue
+        n += 1
+        rep.touch(m)
+        bad = None
+        for g in ast.walk(fi.node):
+            if not isinstance(g, ast.If):
+                continue
+            t = g.test
+            small = any(isinstance(c, ast.Constant) and isinstance(c.value, float) and 0 < c.value < 1e-3 for c in ast.walk(t)) and any(isinstance(c, ast.Compare) for c in ast.walk(t))
+            shifted = any(isinstance(c, ast.Call) and 'positive_semi_definite' in ast.unparse(c.func) and any(k.arg == 'shift' for k in c.keywords) for c in ast.walk(t))
+            if not (small or shifted):
+                continue
+            for s in g.body:
+                zero = None
+                if isinstance(s, ast.Return) and isinstance(s.value, ast.Constant) and s.value.value in (0, 0.0):
+                    zero = s
+                if isinstance(s, ast.Assign) and isinstance(s.value, ast.Constant) and s.value.value in (0, 0.0) and not isinstance(s.value.value, bool):
+                    zero = s
+                if zero is not None:
+                    bad = (g, zero)
+        if bad:
+            rep.violation('ZS1', fi.qual, f'`if {ast.unparse(bad[0].test)[:60]}: {ast.unparse(bad[1])[:20]}` snaps the measure to zero inside a tolerance window: entangled states with a '
+                          f'value below the tolerance are reported as exactly 0', m, bad[0])
+        else:
+            rep.ok('ZS1', fi.qual, 'no tolerance-gated zero', m, fi.node, text=f'{fi.qual} zero snap')
+    rep.count('ZS1.measure_functions', n)
+    return n
+
+
+def v4(proj, rep, modules):
+    rep.rule('V4', RULE_V4)
+    n = 0
+    for fi in proj.iter_functions():
+        m = fi.module
+        if not _in_scope(m, modules) or fi.cls is None or fi.qual.rsplit('.', 1)[1] != 'forward':
+            continue
+        n += 1
+        rep.touch(m)
+        bad = None
+        for b in ast.walk(fi.node):
+            if isinstance(b, ast.BinOp) and isinstance(b.op, ast.Sub) and isinstance(b.left, ast.Call) and isinstance(b.right, ast.Call) \
+                    and ast.unparse(b.left.func).split('.')[-1] == 'sqrt' and ast.unparse(b.right.func).split('.')[-1] == 'sqrt' and b.left.args and b.right.args:
+                inner = b.left.args[0]
+                if isinstance(inner, ast.BinOp) and isinstance(inner.op, ast.Add) and (ast.dump(inner.right) == ast.dump(b.right.args[0]) or ast.dump(inner.left) == ast.dump(b.right.args[0])):
+                    bad = b
+        if bad is not None:
+            rep.violation('V4', fi.qual, f'`{ast.unparse(bad)[:70]}` is a lower bound of sqrt(x) (below it by up to sqrt(d) per term): the loss can fall under the closed-form value', m, bad)
+        else:
+            rep.ok('V4', fi.qual, 'no smoothed root below sqrt(x)', m, fi.node, text=f'{fi.qual} root smoothing')
+    rep.count('V4.forward_methods', n)
+    return n
+
+
+def ax2(proj, rep, modules=None):
+    rep.rule('AX2', RULE_AX2)
+    n = 0
+    for fi in proj.iter_functions():
+        m = fi.module
+        if not _in_scope(m, modules):
+            continue
+        ell = {}
+        for x in ast.walk(fi.node):
+            if isinstance(x, ast.Subscript) and isinstance(x.value, ast.Name):
+                elts = list(x.slice.elts) if isinstance(x.slice, ast.Tuple) else [x.slice]
+                if any(isinstance(e, ast.Constant) and e.value is Ellipsis for e in elts):
+                    ell.setdefault(x.value.id, x)
+        if not ell:
+            continue
+        for c in ast.walk(fi.node):
+            if not (isinstance(c, ast.Call) and c.args and isinstance(c.args[0], ast.Name) and c.args[0].id in ell):
+                continue
+            if ast.unparse(c.func).split('.')[-1] not in ('norm', 'sum', 'mean', 'max', 'min', 'prod', 'cumsum', 'cumprod', 'softmax', 'trace', 'diagonal', 'concatenate', 'stack'):
+                continue
+            for k in c.keywords:
+                if k.arg in ('axis', 'dim', 'axis1', 'axis2') and isinstance(k.value, ast.Constant) and isinstance(k.value.value, int) and not isinstance(k.value.value, bool):
+                    n += 1
+                    rep.touch(m)
+                    if k.value.value >= 1:
+                        rep.violation('AX2', fi.qual, f'`{ast.unparse(c)[:60]}`: `{c.args[0].id}` is addressed with an Ellipsis elsewhere (`{ast.unparse(ell[c.args[0].id])[:30]}`: open batch '
+                                      f'rank) but reduced along the positive axis {k.value.value}', m, c)
+                    else:
+                        rep.ok('AX2', fi.qual, f'`{ast.unparse(c)[:50]}` axis {k.value.value}', m, c)
+    rep.count('AX2.reductions_of_ellipsis_arrays', n)
+    return n
+
+
+def al5_nq1_ce1(proj, rep, modules):
+    for k, v in (('AL5', RULE_AL5), ('NQ1', RULE_NQ1), ('CE1', RULE_CE1)):
+        rep.rule(k, v)
+    nfun = 0
+    for fi in proj.iter_functions():
+        m = fi.module
+        if not _in_scope(m, modules):
+            continue
+        nfun += 1
+        params = set(fi.all_params)
+        shallow = {}
+        for s in ast.walk(fi.node):
+            if isinstance(s, ast.Assign) and isinstance(s.targets[0], ast.Name) and isinstance(s.value, ast.Call) and ast.unparse(s.value.func) in ('copy.copy', 'copy'):
+                shallow[s.targets[0].id] = s
+        for c in ast.walk(fi.node):
+            if isinstance(c, ast.Call) and isinstance(c.func, ast.Attribute) and isinstance(c.func.value, ast.Name) and c.func.value.id in shallow \
+                    and c.func.attr.endswith('_') and not c.func.attr.startswith('_'):
+                rep.touch(m)
+                rep.violation('AL5', fi.qual, f'`{ast.unparse(c)[:50]}` mutates in place an object obtained by `{ast.unparse(shallow[c.func.value.id])[:40]}`: the shallow copy shares '
+                              f'its containers with the caller\'s object', m, c)
+            if m.name.startswith('numqi.qec') and isinstance(c, ast.Compare) and len(c.ops) == 1 and isinstance(c.ops[0], (ast.Eq, ast.NotEq)) and isinstance(_stmt(c), ast.Assert):
+                for side in [c.left] + list(c.comparators):
+                    if isinstance(side, ast.Attribute) and side.attr == 'num_qubit' and not (isinstance(side.value, ast.Name) and side.value.id == 'self'):
+                        rep.touch(m)
+                        rep.violation('NQ1', fi.qual, f'`{ast.unparse(c)[:60]}` requires Circuit.num_qubit (largest used index + 1) to equal a register size: circuits that leave the '
+                                      f'last qubits untouched are rejected', m, c)
+            if isinstance(c, ast.BinOp) and isinstance(c.op, ast.FloorDiv) and isinstance(c.right, ast.Name) and c.right.id in params:
+                w = c.right.id
+                t = ast.unparse(c.left).replace(' ', '')
+                if (f'+{w}-1' in t or f'-1+{w}' in t or t.startswith(f'{w}-1+') or f'+({w}-1)' in t):
+                    src = ast.unparse(fi.node).replace(' ', '')
+                    is_int = f'{w}=int({w})' in src or f'isinstance({w},int)' in src
+                    if not is_int:
+                        rep.touch(m)
+                        rep.violation('CE1', fi.qual, f'`{ast.unparse(c)[:60]}`: ceiling-division idiom with the divisor `{w}`, which is not known to be an integer (only a sign check): for a '
+                                      f'fractional `{w}` the result is below ceil(a/{w})', m, c)
+    rep.count('AL5.functions_scanned', nfun)
+    if nfun:
+        rep.ok('AL5', 'scope', f'{nfun} functions scanned: no in-place method on a shallow copy, no equality on Circuit.num_qubit, no float ceiling-division idiom',
+               proj.mod('numqi.utils'), proj.mod('numqi.utils').tree, text='copy / num_qubit / ceil sweep')
+    return nfun
+
+
+def dt8_ov1(proj, rep, modules):
+    rep.rule('DT8', RULE_DT8)
+    rep.rule('OV1', RULE_OV1)
+    nfun = 0
+    for fi in proj.iter_functions():
+        m = fi.module
+        if not _in_scope(m, modules):
+            continue
+        nfun += 1
+        src = ast.unparse(fi.node)
+        cx_aware = '1j' in src or '.conj()' in src
+        params = set(fi.all_params)
+        for c in ast.walk(fi.node):
+            if not isinstance(c, ast.Call):
+                continue
+            f = ast.unparse(c.func)
+            if cx_aware and f.split('.')[-1] in ('ascontiguousarray', 'asarray', 'array', 'asfortranarray') and c.args:
+                dt = next((k.value for k in c.keywords if k.arg == 'dtype'), None)
+                if dt is not None and any(ast.unparse(dt).endswith(d) for d in ('float64', 'float32', 'float', 'float_', 'double')):
+                    if any(isinstance(y, ast.Name) and y.id in params for y in ast.walk(c.args[0])):
+                        rep.touch(m)
+                        rep.violation('DT8', fi.qual, f'`{ast.unparse(c)[:70]}` forces an input-derived array to a real dtype in a function that itself produces complex values: a complex '
+                                      f'input block loses its imaginary part', m, c)
+            if isinstance(c.func, ast.Attribute) and c.func.attr in ('prod', 'cumprod') and f.split('.')[0] in ('np', 'numpy'):
+                st = _stmt(c)
+                if any(isinstance(y, ast.Call) and ast.unparse(y.func) in ('math.factorial', 'math.comb', 'scipy.special.factorial', 'math.perm') for y in ast.walk(st)) \
+                        and any(isinstance(y, ast.BinOp) and isinstance(y.op, ast.FloorDiv) for y in ast.walk(st)):
+                    rep.touch(m)
+                    rep.violation('OV1', fi.qual, f'`{ast.unparse(st)[:80]}`: exact integer arithmetic through `{f}` wraps at 2^63 (use math.prod / Python ints)', m, c)
+    rep.count('DT8.functions_scanned', nfun)
+    if nfun:
+        rep.ok('DT8', 'scope', f'{nfun} functions scanned: no forced real dtype in complex-aware functions, no np.prod in exact combinatorics', proj.mod('numqi.utils'),
+               proj.mod('numqi.utils').tree, text='real cast / int product sweep')
+    return nfun
+
+
+def fs1_ar4_t4(proj, rep, modules):
+    for k, v in (('FS1', RULE_FS1), ('AR4', RULE_AR4), ('T4', RULE_T4)):
+        rep.rule(k, v)
+    from .kdefects import _role
+    nfun = nre = 0
+    for fi in proj.iter_functions():
+        m = fi.module
+        if not _in_scope(m, modules):
+            continue
+        nfun += 1
+        params = set(fi.all_params)
+        for c in ast.walk(fi.node):
+            # FS1
+            if isinstance(c, ast.Call) and isinstance(c.func, ast.Name) and c.func.id == 'frozenset':
+                st = _stmt(c)
+                used_as_key = isinstance(getattr(c, '_parent', None), ast.Subscript) or (isinstance(st, ast.Assign) and isinstance(st.targets[0], ast.Name) and any(
+                    isinstance(x, ast.Subscript) and isinstance(x.slice, ast.Name) and x.slice.id == st.targets[0].id for x in ast.walk(fi.node)))
+                if used_as_key:
+                    rep.touch(m)
+                    rep.violation('FS1', fi.qual, f'`{ast.unparse(c)[:50]}` is used as a memo key: a set forgets multiplicities, index selections with repeated entries collide', m, c)
+            # AR4
+            if isinstance(c, ast.Call) and isinstance(c.func, ast.Attribute) and c.func.attr == 'reshape' and len(c.args) == 2 \
+                    and not (isinstance(c.func.value, ast.Call) and isinstance(c.func.value.func, ast.Attribute) and c.func.value.func.attr in ('transpose', 'permute', 'swapaxes')):
+                seq = []
+                ok = True
+                for a in c.args:
+                    fac = []
+
+                    def fl(e):
+                        if isinstance(e, ast.BinOp) and isinstance(e.op, ast.Mult):
+                            fl(e.left)
+                            fl(e.right)
+                        else:
+                            fac.append(e)
+                    fl(a)
+                    for e in fac:
+                        r = _role(ast.unparse(e)) if isinstance(e, ast.Name) else None
+                        if r is None:
+                            ok = False
+                        else:
+                            seq.append(r[1])
+                if ok and len(seq) >= 3 and len(set(seq)) == len(seq):
+                    nre += 1
+                    rep.touch(m)
+                    if seq == sorted(seq):
+                        rep.ok('AR4', fi.qual, f'`{ast.unparse(c)[-40:]}`: adjacent groups in ascending subsystem order', m, c)
+                    else:
+                        rep.violation('AR4', fi.qual, f'`{ast.unparse(c)[-50:]}` on an untransposed tensor: the groups are not adjacent in the stored subsystem order; same size, but not this '
+                                      f'bipartition for unequal dimensions', m, c)
+            # T4 (contradiction form): one tolerance, two precision classes in one function
+            pass
+        sv_cmp, gram_cmp = {}, {}
+        for c in ast.walk(fi.node):
+            if not (isinstance(c, ast.Compare) and len(c.ops) == 1 and isinstance(c.ops[0], (ast.Gt, ast.GtE, ast.Lt, ast.LtE))):
+                continue
+            a, b = c.left, c.comparators[0]
+            for ev, tol in ((a, b), (b, a)):
+                if not (isinstance(ev, ast.Name) and isinstance(tol, ast.Name) and tol.id in params and ('eps' in tol.id or 'tol' in tol.id)):
+                    continue
+                for v, st, p in reaching_defs(fi.node, ev.id, c):
+                    if v == 'param' or not isinstance(st, ast.Assign) or not isinstance(st.value, ast.Call):
+                        continue
+                    call = st.value
+                    fn_ = ast.unparse(call.func).split('.')[-1]
+                    tg = st.targets[0]
+                    if fn_ == 'svd' and isinstance(tg, ast.Tuple) and len(tg.elts) == 3 and isinstance(tg.elts[1], ast.Name) and tg.elts[1].id == ev.id:
+                        sv_cmp[tol.id] = c
+                    if fn_ in ('eigh', 'eigvalsh') and call.args and isinstance(call.args[0], ast.BinOp) and isinstance(call.args[0].op, ast.MatMult):
+                        from .hermitian import _base_of
+                        ln, lt, lc = _base_of(call.args[0].left)
+                        rn, rt, rc = _base_of(call.args[0].right)
+                        first = tg.elts[0] if isinstance(tg, ast.Tuple) else tg
+                        if ln is not None and ln == rn and lt != rt and isinstance(first, ast.Name) and first.id == ev.id:
+                            gram_cmp[tol.id] = (c, call.args[0])
+        for tol in set(sv_cmp) & set(gram_cmp):
+            c, g = gram_cmp[tol]
+            rep.touch(m)
+            rep.violation('T4', fi.qual, f'`{ast.unparse(c)}` cuts the eigenvalues of the Gram matrix `{ast.unparse(g)[:30]}` (squared singular values) at `{tol}`, and '
+                          f'`{ast.unparse(sv_cmp[tol])}` cuts singular values at the same `{tol}`: the two arms of one function apply thresholds that differ by a square root', m, c)
+    rep.count('AR4.grouped_reshapes', nre)
+    rep.count('FS1.functions_scanned', nfun)
+    if nfun:
+        rep.ok('FS1', 'scope', f'{nfun} functions scanned: no frozenset memo key, no Gram spectrum cut at a singular-value tolerance', proj.mod('numqi.utils'),
+               proj.mod('numqi.utils').tree, text='frozenset / gram sweep')
+    return nfun, nre
+
+
+# ------------------------------------------------------------------------------------------------ DT9 / CH1 / LN1
+RULE_DT9 = ('DT9: a buffer whose dtype is derived from the dtype of an input (`dtype=A.dtype`, `np.result_type(A.dtype, np.float64)`) never receives a value built with '
+            'an imaginary literal (`* 0.5j`): for a real input the buffer is real and the imaginary coefficients are discarded (ComplexWarning only).')
+RULE_CH1 = ('CH1: the Choi / Kraus form of a user callable is read off from ALL dim_in^2 matrix units: the probe loops run over the full square. Filling the lower '
+            'triangle from the upper one assumes Phi(X^T) = Phi(X)^T, which holds for transposition-covariant (e.g. real) channels only.')
+RULE_LN1 = ('LN1: `apply_kraus_op` / `apply_choi_op` / `apply_super_op` are complex-LINEAR in their argument: no conjugate (`.conj()`, `.T.conj()`, np.conj) of a value '
+            'derived from `rho`. Hermitising the output is anti-linear; the round trip through hf_channel_to_choi_op (matrix-unit probes) then describes another map.')
+
+
+def dt9(proj, rep, modules):
+    rep.rule('DT9', RULE_DT9)
+    n = 0
+    for fi in proj.iter_functions():
+        m = fi.module
+        if not _in_scope(m, modules):
+            continue
+        params = set(fi.all_params)
+        for s in ast.walk(fi.node):
+            if not (isinstance(s, ast.Assign) and isinstance(s.targets[0], ast.Name) and isinstance(s.value, ast.Call)
+                    and ast.unparse(s.value.func).split('.')[-1] in ('empty', 'zeros', 'ones', 'empty_like', 'zeros_like', 'full')):
+                continue
+            dt = next((k.value for k in s.value.keywords if k.arg == 'dtype'), None)
+            like = ast.unparse(s.value.func).endswith('_like')
+            from_input = False
+            if dt is not None:
+                from_input = any(isinstance(a, ast.Attribute) and a.attr == 'dtype' and isinstance(a.value, ast.Name) and a.value.id in params for a in ast.walk(dt)) \
+                    and not any(isinstance(c, ast.Constant) and isinstance(c.value, str) and 'complex' in c.value for c in ast.walk(dt)) and 'complex' not in ast.unparse(dt)
+            elif like and s.value.args and isinstance(s.value.args[0], ast.Name) and s.value.args[0].id in params:
+                from_input = True
+            if not from_input:
+                continue
+            buf = s.targets[0].id
+            for a in ast.walk(fi.node):
+                if isinstance(a, ast.Assign) and isinstance(a.targets[0], ast.Subscript) and isinstance(a.targets[0].value, ast.Name) and a.targets[0].value.id == buf \
+                        and a.lineno > s.lineno:
+                    n += 1
+                    # a store inside a branch selected by a dtype / realness test knows what the buffer is
+                    guarded = any(isinstance(p, ast.If) and any(k in ast.unparse(p.test) for k in ('real', 'complex', 'dtype')) for p in _ancestors(a, fi.node))
+                    if not guarded and any(isinstance(c, ast.Constant) and isinstance(c.value, complex) for c in ast.walk(a.value)):
+                        rep.touch(m)
+                        rep.violation('DT9', fi.qual, f'`{ast.unparse(s)[:70]}` takes its dtype from the input; `{ast.unparse(a)[:60]}` stores a value with an imaginary factor: for a real '
+                                      f'input the imaginary part is discarded', m, a)
+    rep.count('DT9.stores_into_input_typed_buffers', n)
+    return n
+
+
+def ch1_ln1(proj, rep):
+    rep.rule('CH1', RULE_CH1)
+    rep.rule('LN1', RULE_LN1)
+    n = 0
+    for q in ('numqi.channel._internal.hf_channel_to_choi_op', 'numqi.channel._internal.hf_channel_to_kraus_op'):
+        fi = proj.func(q)
+        m = fi.module
+        rep.touch(m)
+        loops = [lp for lp in ast.walk(fi.node) if isinstance(lp, ast.For) and isinstance(lp.iter, ast.Call) and ast.unparse(lp.iter.func) == 'range']
+        outer = [lp for lp in loops if any(isinstance(x, ast.For) and x is not lp for x in ast.walk(lp))]
+        for lp in loops:
+            n += 1
+            args = [ast.unparse(a) for a in lp.iter.args]
+            outer_vars = {o.target.id for o in outer if isinstance(o.target, ast.Name) and o is not lp}
+            if any(isinstance(y, ast.Name) and y.id in outer_vars for a in lp.iter.args for y in ast.walk(a)):
+                rep.violation('CH1', q, f'`for {ast.unparse(lp.target)} in {ast.unparse(lp.iter)}`: the probe loop depends on the outer index: only part of the matrix units is '
+                              f'evaluated, the rest is inferred by a symmetry the channel need not have', m, lp)
+            else:
+                rep.ok('CH1', q, f'`for {ast.unparse(lp.target)} in {ast.unparse(lp.iter)}` full range', m, lp)
+    for q in ('numqi.channel._internal.apply_kraus_op', 'numqi.channel._internal.apply_choi_op', 'numqi.channel._internal.apply_super_op'):
+        fi = proj.func(q)
+        m = fi.module
+        rep.touch(m)
+        n += 1
+        dep = {'rho'}
+        changed = True
+        while changed:
+            changed = False
+            for s in ast.walk(fi.node):
+                if isinstance(s, ast.Assign) and any(isinstance(y, ast.Name) and y.id in dep for y in ast.walk(s.value)):
+                    for t in s.targets:
+                        for y in ast.walk(t):
+                            if isinstance(y, ast.Name) and isinstance(y.ctx, ast.Store) and y.id not in dep:
+                                dep.add(y.id)
+                                changed = True
+        bad = None
+        for c in ast.walk(fi.node):
+            if isinstance(c, ast.Call) and isinstance(c.func, ast.Attribute) and c.func.attr in ('conj', 'conjugate'):
+                recv = c.args[0] if (isinstance(c.func.value, ast.Name) and c.func.value.id in ('np', 'numpy', 'torch') and c.args) else c.func.value
+                if any(isinstance(y, ast.Name) and y.id in dep for y in ast.walk(recv)) and not isinstance(_stmt(c), ast.Assert):
+                    bad = c
+        if bad is not None:
+            rep.violation('LN1', q, f'`{ast.unparse(_stmt(bad))[:70]}` conjugates a value derived from `rho`: the map is no longer complex-linear in its argument', m, bad)
+        else:
+            rep.ok('LN1', q, 'no conjugate on the rho path', m, fi.node, text=f'{q} linearity')
+    rep.count('CH1_LN1.obligations', n)
     return n
